@@ -133,6 +133,31 @@ M = [
   [(S, "impl<T: RcObject + Ord> Ord for Rc<T> {\n    fn cmp(&self, other: &Self) -> std::cmp::Ordering {\n        self.as_ref().cmp(&other.as_ref())", "impl<T: RcObject + Ord> Ord for Rc<T> {\n    fn cmp(&self, other: &Self) -> std::cmp::Ordering {\n        (self.ptr.as_raw() as usize).cmp(&(other.ptr.as_raw() as usize))")]),
  ("M54", "mutant", "list insert does not re-read the successor after a failed CAS", ["C18"],
   [(L, "                Err(curr) => next = curr,\n", "                Err(curr) => { let _ = curr; }\n")]),
+ ("M57", "mutant", "disposal frame reuses the epoch window it read at its top for every child (revert of D11)", ["C02"],
+  [(U, "            let modu: Modular<EPOCH_WIDTH> = Modular::new(global_epoch() as isize + 1);\n\n            // Decrement next node's strong count and update its epoch.", "            // Decrement next node's strong count and update its epoch.")]),
+ ("M58", "mutant", "unpin writes back the guard count it read before the collection (revert of D12, first half)", ["C16"],
+  [(I, "        let guard_count = self.guard_count.get();\n        self.guard_count.set(guard_count - 1);", "        self.guard_count.set(guard_count - 1);"),
+   (I, "    pub(crate) fn unpin(&self) {\n        if self.guard_count.get() == 1 && !self.collecting.get() {", "    pub(crate) fn unpin(&self) {\n        let guard_count = self.guard_count.get();\n        if guard_count == 1 && !self.collecting.get() {")]),
+ ("M59", "mutant", "the collection loop of unpin re-pins although a deferred function kept a guard (revert of D12, second half, first site)", ["C16"],
+  [(I, "                if self.guard_count.get() == 1 {\n                    self.repin_without_collect();\n                }", "                self.repin_without_collect();")]),
+ ("M67", "mutant", "the disposal pass re-pins every 128 nodes although a deferred function kept a guard (revert of D12, second half, second site)", ["C16"],
+  [(U, "            local.repin_in_disposal();", "            local.repin_without_collect();")]),
+ ("K05", "control", "the disposal pass never re-pins (what 265b081 did by accident): no listed property requires the re-pin, every check must stay green; T10's non-triviality count drops to 0, which is how the evidence shows it", ["C02", "C06", "C07", "C16"],
+  [(U, "    if count % 128 == 0 {", "    if count % 128 == 0 && depth == usize::MAX {")]),
+ ("M60", "mutant", "increment_strong no longer refuses to overflow the strong field", ["C01"],
+  [(U, "            assert!(\n                old.strong() as u64 + add as u64 <= STRONG,\n                \"too many references to one object\"\n            );\n", "")]),
+ ("M61", "mutant", "bulk constructors truncate the count again (`as u32`, no range check)", ["C10"],
+  [(U, "    assert!(\n        count as u64 <= STRONG,\n        \"too many references to one object\"\n    );\n", "")]),
+ ("M62", "mutant", "increment_weak no longer refuses to overflow the weak field", ["C05"],
+  [(U, "        assert!(\n            old.weak() as u64 + count as u64 <= (WEAK / WEAK_COUNT) / 2,\n            \"too many weak references to one object\"\n        );\n", "")]),
+ ("M63", "mutant", "try_advance may start a scan within a scan again (revert of D14)", ["C18", "C20"],
+  [(I, "            if local.advancing.replace(true) {\n                return global_epoch;\n            }", "            let _ = local.advancing.replace(true);")]),
+ ("M64", "mutant", "try_pop_if reads the element after retiring the old sentinel (revert of D15)", ["C18", "C15"],
+  [(Q, "                        let data = n.data.assume_init_read();\n                        guard.defer_destroy(head);\n                        Some(data)\n                    })\n                    .map_err(|_| ())\n            },\n            None | Some(_) => Ok(None),", "                        guard.defer_destroy(head);\n                        Some(n.data.assume_init_read())\n                    })\n                    .map_err(|_| ())\n            },\n            None | Some(_) => Ok(None),")]),
+ ("M65", "mutant", "recursion cap 1024 -> 4096 (frames no longer fit a 512 KiB stack)", ["C07"],
+  [(U, "    if depth >= 1024 {", "    if depth >= 4096 {")]),
+ ("M66", "mutant", "a guard created by a deferred function is not counted when the collection decides to re-pin on a full bag (schedule_collection ignores guard_count)", ["C16", "C02"],
+  [(I, "        if self.collecting.get() && self.guard_count.get() == 1 {\n            self.repin_without_collect();", "        if self.collecting.get() {\n            self.epoch.store(self.global().epoch.load(Ordering::Relaxed).pinned(), Ordering::Release);")]),
  ("M55", "mutant", "pop returns the value although the head CAS failed", ["C17"],
   [(Q, "    fn pop_internal(&self, guard: &Guard) -> Result<Option<T>, ()> {\n        let head = self.head.load(Acquire, guard);\n        let h = unsafe { head.deref() };\n        let next = h.next.load(Acquire, guard);\n        match unsafe { next.as_ref() } {\n            Some(n) => unsafe {\n                self.head\n                    .compare_exchange(head, next, Release, Relaxed, guard)\n                    .map(|_| {", "    fn pop_internal(&self, guard: &Guard) -> Result<Option<T>, ()> {\n        let head = self.head.load(Acquire, guard);\n        let h = unsafe { head.deref() };\n        let next = h.next.load(Acquire, guard);\n        match unsafe { next.as_ref() } {\n            Some(n) => unsafe {\n                self.head\n                    .compare_exchange(head, next, Release, Relaxed, guard)\n                    .or_else(|e| if e.ptr_eq(next) { Ok(e) } else { Err(e) })\n                    .map(|_| {")]),
 ]
